@@ -67,7 +67,9 @@ def handle : Handler := fun op args =>
         let z := fun i => (look i).1
         let pp := fun i => (look i).2
         -- entries of the table at the requested indices: evaluate the assignments of the passes
-        -- that write index k (pass k if k < m, pass n-1-k if n-1-k < m), in order
+        -- that write index k (pass k if k < m, pass n-1-k if n-1-k < m), in order.  By
+        -- `Lp.C12.glTable_closed` (LpProofs/C12/Lemmas.lean) entry k of the full table depends on
+        -- root `rootIdx n k` only, so this equals `glTable n a b z pp k` without computing all roots.
         let entry (k : Nat) : Rat × Rat :=
           let passes := ((if k < half n then [k] else []) ++ (if n - 1 - k < half n ∧ n - 1 - k ≠ k then [n - 1 - k] else []))
           let passes := passes.mergeSort (fun x y => decide (x ≤ y))
